@@ -134,5 +134,13 @@ func pickScenario(rng *rand.Rand, focus string) scenario {
 	default:
 		panic("unknown focus " + focus)
 	}
+	// a third of the scenarios give pods without ranges a present-but-void args annotation
+	if rng.Intn(3) == 0 {
+		for i := range sc.Specs {
+			if len(sc.Specs[i].Ranges) == 0 {
+				sc.Specs[i].ArgsAnn = []string{"empty", "null", "{}"}[rng.Intn(3)]
+			}
+		}
+	}
 	return sc
 }
